@@ -32,7 +32,7 @@ def shards(tier, seed):
         for a in range(16):
             out.append({'name': 'ph%d' % a, 'what': 'ph-all',
                         'lo': a * 16, 'hi': a * 16 + 16})
-    return out
+    return common.with_configs(out, common.ALL_CONFIGS, take=6)
 
 
 def _contents(rnd, n):
@@ -113,6 +113,9 @@ def run_case(case, rec):
         b, ch = case['body'], case['ch']
         wit = case if len(b) <= 4096 else {'t': 'body', 'body': b[:64],
                                            'ch': ch, 'true_len': len(b)}
+        if rec.evaluations % 3 == 0:
+            common.disturb_encoder(common.RND, 1)
+            rec.count('failed_encodes_interleaved')
         obj = body.ContentBody(b)
         if len(obj) != len(b):
             rec.violation('body-len', 'len(ContentBody) = %r for %d bytes'
